@@ -1,10 +1,13 @@
 #!/bin/bash
-# runs every seeded change against the quick check of the property it targets (or the check given in seeded/<id>/check)
+# runs every seeded change against the quick check of the property it targets (or the check named in seeded/<id>/check), four at a
+# time, each in its own scratch worktree and scratch copy of /verif (runmut2.sh): /repo and /verif/evidence are not touched.
 cd /verif
-for d in seeded/*/; do
-  n=$(basename $d); p=${n:0:3}
+one() {
+  d=$1; n=$(basename $d); p=${n:0:3}
   [ -f $d/check ] && p=$(cat $d/check)
-  out=$(./runmut.sh $PWD/$d/patch.diff $p 2>&1 | tail -2 | tr '\n' ' ' | cut -c1-160)
+  out=$(./runmut2.sh /verif/$d/patch.diff $p 2>&1 | tail -2 | tr '\n' ' ' | cut -c1-170)
   [ -f $d/expect-held ] && out="$out (expected to hold: $(cat $d/expect-held))"
   echo "$n -> $p: $out"
-done
+}
+export -f one
+ls -d seeded/*/ | sed 's#/$##' | xargs -P ${ALLMUT_JOBS:-4} -I{} bash -c 'one {}' | sort
